@@ -613,7 +613,7 @@ class World(object):
         self.count("reinstalls")
         return c
 
-    def restart_client(self, phone, wipe=None):
+    def restart_client(self, phone, wipe=None, busy=False):
         old = self.clients[phone]
         if old.connected and old.dispatcher is not None:
             self.close_connection(old, old.dispatcher, notify=False)
@@ -629,6 +629,37 @@ class World(object):
             for sfx in ("", "-journal", "-wal", "-shm"):
                 if os.path.exists(wipe + sfx):
                     os.remove(wipe + sfx)
+        if busy:
+            # another process holds the key store's lock past the busy timeout while this one starts: the start is refused (the
+            # store cannot be opened); the lock goes away and the client is started again
+            import sqlite3, types
+            from yowsup.common.tools import StorageTools
+            import yowsup.axolotl.store.sqlite.liteaxolotlstore as las
+            db = os.path.join(StorageTools.getStorageForProfile(old.profile_name), "axolotl.db")
+            locker = sqlite3.connect(db, timeout=0.1)
+            locker.isolation_level = None
+            locker.execute("BEGIN EXCLUSIVE")
+            real = las.sqlite3
+            shim = types.SimpleNamespace(**{k: getattr(sqlite3, k) for k in dir(sqlite3) if not k.startswith("__")})
+            shim.connect = lambda *a, **kw: sqlite3.connect(*a, **dict(kw, timeout=0.15))     # (instead of waiting sqlite's 5 s)
+            las.sqlite3 = shim
+            started = None
+            try:
+                try:
+                    started = Client(self, phone, modules=old.modules, props=old.props, generation=old.generation + 1, wiring=old.wiring)
+                    started.manager()
+                    self.count("busy_start_came_up")
+                except sqlite3.OperationalError:
+                    started = None
+                    self.count("busy_start_refused")
+            finally:
+                las.sqlite3 = real
+                locker.execute("ROLLBACK")
+                locker.close()
+            if started is not None:
+                self.clients[phone] = started
+                self.count("restarts")
+                return started
         c = Client(self, phone, modules=old.modules, props=old.props, generation=old.generation + 1, wiring=old.wiring)
         self.clients[phone] = c
         self.count("restarts")
@@ -1021,7 +1052,7 @@ class World(object):
             c = self.clients[a["who"]]
             c.guarded(lambda: c.app.disconnect(), "disconnect")
         elif op == "restart":
-            c = self.restart_client(a["who"])
+            c = self.restart_client(a["who"], busy=bool(a.get("busy")))
             c.guarded(lambda: c.app.connect(), "connect")
         elif op == "reinstall":
             c = self.reinstall_client(a["who"])
